@@ -203,6 +203,8 @@ func (v *inputFieldDefaultInjectionVisitor) jsonWalker(fieldType int, defaultVal
 		if err != nil {
 			return
 		}
+		// i is the index of the element being visited, whatever happens to it
+		defer func() { i++ }()
 		if listOfList && dataType == jsonparser.Array {
 			newVal, replaced, err := v.processObjectOrListInput(typeDoc.Types[fieldType].OfType, value, typeDoc)
 			if err != nil {
@@ -229,10 +231,7 @@ func (v *inputFieldDefaultInjectionVisitor) jsonWalker(fieldType int, defaultVal
 				}
 				*finalValueReplaced = true
 			}
-		} else {
-			return
 		}
-		i++
 	}
 
 }
